@@ -918,6 +918,10 @@ pub fn c13(rep: &mut Report, cfg: &Cfg) {
     if cfg.shard < 2 || cfg.tier_thorough {
         binary_determinism(rep, rng.next());
     }
+    // the sync grid under pause / resume traffic (no twin involved)
+    for _ in 0..(if cfg.tier_thorough { 4 } else { (cfg.shard < 6) as u64 }) {
+        sync_grid_case(rep, rng.next(), false);
+    }
     // the terminating example programs of the repository
     if cfg.shard == 0 {
         for name in ["printf.elf", "example2.elf", "example3.elf"] {
@@ -951,4 +955,115 @@ pub fn replay(line: &str) -> (bool, String) {
         out.push_str(&format!("  FINDING {}: {}\n", f.sig, f.detail));
     }
     (!rep.findings.is_empty(), out)
+}
+
+
+/// The sync grid under control traffic: a spinning guest run across three multiples of 2,000,000
+/// states while the control channel pauses and resumes it (and sends redundant starts) at random
+/// iterations. Independent of any twin: the k-th `sync:<total>` must carry a total in
+/// [k x 2,000,000, k x 2,000,000 + 3 x 255) - the count passed the k-th multiple in the instruction
+/// that was charged last - and there must be floor(final total / 2,000,000) of them.
+pub fn sync_grid_case(rep: &mut Report, seed: u64, verbose: bool) -> bool {
+    let mut rng = Rng::new(seed);
+    let mut rig = RunRig::new();
+    const SPIN: u32 = 0xffc000;
+    crate::mon::real_poke(&mut rig.cpu, SPIN, 0x40);
+    crate::mon::real_poke(&mut rig.cpu, SPIN + 1, 0xfe);
+    rig.cpu.er[2] = SPIN;
+    rig.cpu.er[7] = 0xffe000;
+    rig.cpu.exit_addr = 0x00ff_fff0;
+    let goal: u64 = 3 * SYNC_INTERVAL + 100_000 + rng.below(400_000);
+    // control events by state count (so that they land anywhere relative to the grid)
+    let mut events: Vec<(u64, &'static str)> = vec![];
+    for _ in 0..(3 + rng.below(6)) {
+        let at = rng.below(goal);
+        if rng.chance(1, 3) {
+            events.push((at, "cmd:start"));
+        } else {
+            events.push((at, "cmd:pause")); // the matching start follows a few paused iterations later
+        }
+    }
+    // some right around the multiples
+    for k in 1..=3u64 {
+        if rng.chance(1, 2) {
+            let at = k * SYNC_INTERVAL - 40 + rng.below(80);
+            events.push((at, "cmd:pause"));
+        }
+    }
+    events.sort();
+    struct St {
+        next: usize,
+        hold: u64,
+        stopped: bool,
+        ticks: u64,
+    }
+    let st = shared(St { next: 0, hold: 0, stopped: false, ticks: 0 });
+    let s2 = st.clone();
+    let tx = rig.to_emu.clone();
+    let ev = events.clone();
+    let tick = Box::new(move |cpu: &mut Cpu| {
+        let mut s = s2.borrow_mut();
+        s.ticks += 1;
+        if s.stopped {
+            if s.ticks > 40_000_000 {
+                std::panic::resume_unwind(Box::new("h8mon: run() did not end after cmd:stop"));
+            }
+            return;
+        }
+        let sum = cpu.verif_state_sum() as u64;
+        if s.hold > 0 {
+            // a pause was sent: the matching start follows after a few (paused) iterations
+            s.hold -= 1;
+            if s.hold == 0 {
+                let _ = tx.send("cmd:start".to_string());
+            }
+            return;
+        }
+        while s.next < ev.len() && ev[s.next].0 <= sum {
+            let (_, line) = ev[s.next];
+            let _ = tx.send(line.to_string());
+            s.next += 1;
+            if line == "cmd:pause" {
+                s.hold = 3 + (sum % 5);
+                return;
+            }
+        }
+        if sum >= goal || s.ticks > 30_000_000 {
+            let _ = tx.send("cmd:stop".to_string());
+            s.stopped = true;
+        }
+    });
+    let end = run_with_hook(&mut rig.cpu, tick);
+    let total = rig.cpu.verif_state_sum() as u64;
+    let msgs = rig.drain();
+    let syncs: Vec<u64> = msgs.iter().filter_map(|m| m.strip_prefix("sync:")).filter_map(|x| x.parse().ok()).collect();
+    rep.evaluations += 1;
+    rep.cell("sync-grid", &[events.len() as u64, syncs.len() as u64]);
+    rep.count("sync_grid_states_run", total);
+    let replay = format!("check=C13 kind=syncgrid seed={}", seed);
+    if verbose {
+        println!("  sync grid seed={}: end {:?}, total {}, events {:?}, syncs {:?}", seed, end, total, events, syncs);
+    }
+    let mut bad = false;
+    if end != RunEnd::Ok {
+        rep.finding("syncgrid|run-did-not-stop-cleanly", || format!("run() ended with {:?} (seed {})", end, seed), || replay.clone());
+        return true;
+    }
+    for (i, t) in syncs.iter().enumerate() {
+        let k = i as u64 + 1;
+        if *t < k * SYNC_INTERVAL || *t >= k * SYNC_INTERVAL + 3 * 255 {
+            bad = true;
+            rep.finding(
+                "syncgrid|sync-off-the-grid",
+                || format!("sync message {} carries total {}; the count passes {} in the instruction charged last, so it must lie in [{}, {}); control lines sent at state counts {:?} (seed {})", k, t, k * SYNC_INTERVAL, k * SYNC_INTERVAL, k * SYNC_INTERVAL + 765, events, seed),
+                || replay.clone(),
+            );
+            break;
+        }
+    }
+    if !bad && syncs.len() as u64 != total / SYNC_INTERVAL {
+        bad = true;
+        rep.finding("syncgrid|sync-count", || format!("{} sync messages for a final total of {} states (seed {})", syncs.len(), total, seed), || replay.clone());
+    }
+    bad
 }
